@@ -288,9 +288,8 @@ func reflectContract(m protoreflect.Message) string {
 			fmt.Fprintf(&sb, "field %d ranged %d times; ", n, k)
 		}
 	}
-	fds := md.Fields()
-	for i := 0; i < fds.Len(); i++ {
-		fd := fds.Get(i)
+	// fields and registered extensions alike (F42: the extension map handed out its stored list)
+	for _, fd := range allFields(md) {
 		has := m.Has(fd)
 		if has != (seen[fd.Number()] == 1) {
 			fmt.Fprintf(&sb, "%s: Has=%v but ranged %d times; ", fd.FullName(), has, seen[fd.Number()])
@@ -319,6 +318,10 @@ func reflectContract(m protoreflect.Message) string {
 		case fd.Message() != nil:
 			if v.Message().IsValid() {
 				fmt.Fprintf(&sb, "%s: unpopulated message reads as valid; ", fd.FullName())
+			} else if !setPanics(m, fd, v) {
+				// Set must refuse an empty read-only message (F43: oneof members and dynamicpb did not)
+				fmt.Fprintf(&sb, "%s: Set accepted the invalid message that Get returned; ", fd.FullName())
+				m.Clear(fd)
 			}
 			n := 0
 			v.Message().Range(func(protoreflect.FieldDescriptor, protoreflect.Value) bool { n++; return true })
@@ -429,4 +432,14 @@ func usableAfterFailure(m protoreflect.Message) (why string) {
 	stage = "Reset"
 	proto.Reset(m.Interface())
 	return ""
+}
+
+func setPanics(m protoreflect.Message, fd protoreflect.FieldDescriptor, v protoreflect.Value) (panicked bool) {
+	defer func() {
+		if recover() != nil {
+			panicked = true
+		}
+	}()
+	m.Set(fd, v)
+	return false
 }
